@@ -236,6 +236,7 @@ def run(repo='/repo', tier='quick'):
     c16h(db, res)
     c16j(db, res)
     c16k(db, res)
+    c16l(db, res)
     c16i(db, res)
     res.assumptions.append('"no request byte skipped or parsed twice" is decided only as: the suspension/probe paths do not move the cursor; values are not tracked')
     if tier == 'thorough':
@@ -338,6 +339,36 @@ def c16k(db, res):
     res.floor('C16.k', 'transaction creations on the response side', n, 1)
 
 
+SUSPENDERS = {'htp_connp_REQ_CONNECT_CHECK': 'suspends the request side after a CONNECT head', 'htp_connp_REQ_CONNECT_WAIT_RESPONSE': 'keeps it suspended until the answer is known',
+              'htp_tx_state_response_complete_ex': 'the response side yields at the end of the transaction the request side waits on (C16.d)'}
+
+
+def c16l(db, res):
+    """The CONNECT protocol of the two state machines has exactly two suspension points on the request side and one yield on
+    the response side; every request reaches the body decision THROUGH the CONNECT check (a CONNECT that announces a body is
+    still a CONNECT). Two who-may rules keep it that way."""
+    res.rule('C16.l', 'every request passes the CONNECT check and only the CONNECT states suspend: htp_connp_REQ_BODY_DETERMINE is stored into in_state only by htp_connp_REQ_CONNECT_CHECK; HTP_DATA_OTHER is returned only by the tabled suspension / yield points')
+    n = 0
+    for name, f in sorted(db.fn.items()):
+        if not f.blocks:
+            continue
+        for b, i, w in P.field_writes(f, 'in_state'):
+            if w.get('k') == 'assign' and S(w['r']).endswith('htp_connp_REQ_BODY_DETERMINE'):
+                n += 1
+                res.check(name == 'htp_connp_REQ_CONNECT_CHECK', 'C16.l', '%s:in_state=REQ_BODY_DETERMINE' % name, 'entered from the CONNECT check',
+                          '%s sends the request side to REQ_BODY_DETERMINE without passing REQ_CONNECT_CHECK: a CONNECT that takes this way is not suspended, its tunnel bytes are parsed as a body or as new requests before any answer has been seen' % name, w['loc'])
+        for b, i, st in f.returns() or []:
+            rv = P.ret_value(st)
+            if rv is None:
+                continue
+            lits = [lit_name(x) for x in nodes(rv, lambda y: y.get('k') == 'lit')] + [lit_name(rv)]
+            if 'HTP_DATA_OTHER' in lits:
+                n += 1
+                res.check(name in SUSPENDERS, 'C16.l', '%s:returns:HTP_DATA_OTHER' % name, SUSPENDERS.get(name, ''),
+                          '%s returns HTP_DATA_OTHER: outside the CONNECT states nothing ever releases a direction that asked for the other one, so every later call reports DATA_OTHER and the bytes it was offered are never parsed' % name, st['loc'])
+    res.floor('C16.l', 'stores of the body-decision state and DATA_OTHER returns', n, 3)
+
+
 def c16h(db, res):
     """The tunnel probe (and REQ_FINALIZE after a refused CONNECT) decide "plain HTTP follows" by htp_convert_method_to_number():
     every method name of its table must actually be reachable - a guard in front of the comparisons (on the length, say)
@@ -375,6 +406,11 @@ def c16h(db, res):
         res.violated('C16.h', 'method:%s:reachable' % nm, 'the comparison with "%s" (length %d) is only reached under %s, which is false for that name: the method is reported as unknown, and a tunnelled or pipelined request that uses it is not recognised as HTTP' % (nm, len(nm), g), f.loc)
     if not bad:
         res.holds('C16.h', 'method-table:reachable', 'all %d method names are reachable under the guards in front of their comparison' % n, f.loc)
+    # method tokens are case-sensitive (RFC 7230 section 3.1.1): `connect` is an extension method, not CONNECT - and what is CONNECT
+    # decides whether the target is split as an authority and whether the request side suspends
+    folded = [c for b_, i_, c in f.calls() if (c.get('callee') or '').startswith('bstr_cmp') and 'nocase' in (c.get('callee') or '')]
+    res.check(not folded, 'C16.h', 'htp_convert_method_to_number:case-sensitive', 'method names are compared byte for byte',
+              'htp_convert_method_to_number compares method names with %s: "connect" or "Connect" is taken for CONNECT, its target is split as an authority and the request side suspends for a tunnel the client never asked for' % (folded[0].get('callee') if folded else ''), (folded[0] if folded else {}).get('loc', f.loc))
     res.floor('C16.h', 'method names compared', n, 20)
 
 
